@@ -40,6 +40,8 @@ theorem aliveLoop_quiet (p ws acc again) : (aliveLoop p ws acc again).quiet := b
     cases again with
     | none => simp [aliveLoop, Next.quiet]
     | some ws2 => cases ws2 <;> simp [aliveLoop, Next.quiet, K.mayAcq, isAcq]
+theorem acqWLoop_quiet (p ws acc) : (acqWLoop p ws acc).quiet := by
+  cases ws <;> simp [acqWLoop, Next.quiet, K.mayAcq, isAcq]
 theorem next1Loop_quiet (p ws) : (next1Loop p false ws []).quiet := by
   cases ws <;> simp [next1Loop, next2Loop, Next.quiet, K.mayAcq, isAcq]
 
@@ -75,6 +77,7 @@ theorem resume_quiet (k : K) (b : Bool) (hk : k.mayAcq = false) : (resume k b).q
     · split <;> simp [Next.quiet, K.mayAcq, isAcq]
   case subC => split <;> simp [Next.quiet, K.mayAcq, isAcq]
   case callAll => exact callLoop_quiet ..
+  case acqW => exact acqWLoop_quiet ..
 
 theorem start_quiet (pw : Pid → List Wid) (op : Op) (h : op.mayAcq = false) : (start pw op).quiet := by
   cases op <;> simp only [Op.mayAcq, reduceCtorEq] at h <;> simp only [start]
@@ -87,6 +90,8 @@ theorem start_quiet (pw : Pid → List Wid) (op : Op) (h : op.mayAcq = false) : 
   case callW => simp [Next.quiet, K.mayAcq, isAcq]
   case aliveWorkers => exact aliveLoop_quiet ..
   case submitW => split <;> simp [Next.quiet, K.mayAcq, isAcq]
+  case isAliveW => simp [Next.quiet, K.mayAcq, isAcq]
+  case acquiredWorkers => exact acqWLoop_quiet ..
 
 theorem apply_quiet (th : Thread) (n : Next) (hn : n.quiet) :
     ∀ cl k, (th.apply n).cur = some (cl, k) → k.mayAcq = false ∧ isAcq cl.pc = false := by
